@@ -56,7 +56,7 @@ class C14(Prop):
     id = 'C14'
     title = "Signed messages verify for the signer's address and for nothing else"
     lean_targets = ['BtcVerif.Props.C14']
-    table_groups = []      # the P2PKH prefix C14 depends on is tied by T2 directly: `c14.msg` compares the address TEXT
+    table_groups = ['ChainAddr']   # T1: per-chain P2PKH prefix (Tables/ChainAddr); also tied by T2 (`c14.msg` compares the address TEXT)
                            # under each chain (B8: no shared ChainAddr obligation)
     theorems = ['BtcVerif.C14.' + t for t in (
         'serVarInt_eq_compactSize', 'serBytes_eq_varBytes', 'msg_digest_eq_spec', 'msg_digest_text', 'magic_prefix',
